@@ -1,4 +1,5 @@
 import TwistedProps.C28.Render
+import TwistedProps.C28.IO
 /-!
 C28 — template flattening never lets content become markup.
 
@@ -18,11 +19,20 @@ structure) with names the reading accepts, tokenizing the flattened bytes gives 
 conditions that XML itself imposes (`xml_roundtrip_partial`): no `--` inside comment text and
 only XML `Char`s in the output; both are recorded findings with counterexamples below.
 
+Size and chunking (`Twisted.Web.FlattenIO`, `C28/IO.lean`): none of the statements bounds the size of a string or
+of the document.  The code writes the document in chunks — every string is escaped whole and written in one `write`,
+attribute values pass chunk by chunk through `writeWithAttributeEscaping`, `_flattenTree` buffers the chunks up to
+`BUFFER_SIZE` and flushes when the buffer is full, before awaiting a Deferred and at the end.  `buffering_invisible`:
+for EVERY buffer size the chunks delivered upstream, joined, are exactly `flattenString`'s bytes; so the round-trip
+theorems hold for the document assembled by the chunk-level model (`html_roundtrip_buffered`).  Which escapers could
+be applied slice by slice: `per_char_escapers_slice_safe` (text, attribute) vs `cdata_slices_counterexample`,
+`comment_slices_counterexample` (the three-byte rewrites cannot).
+
 Full statement of the XML half that is NOT proved (it is false for the code, see the
 counterexamples): `∀ n out, wfNames .xml n → flattenString n = .ok out → tokenize .xml out = render …`.
 -/
 namespace TwistedProps.C28
-open Twisted.Py Twisted.Web.Flatten Twisted.Web.Tok
+open Twisted.Py Twisted.Web.Flatten Twisted.Web.Tok Twisted.Web.FlattenIO
 
 /-- **General form** (any dialect, any render-factory flag, any slot stack): if `flatten` in content
     mode succeeds, so does `expect`, with the same slot stack, and the tokenizer started with pending
@@ -117,6 +127,73 @@ theorem cdata_roundtrip (s : Bytes) :
   have h := spec_cdata (.html true) rfl s (fun _ _ => rfl) []
   have := h.run []
   simpa [tokenize, run, finish, feed] using this
+
+/-! ### size, chunks and the buffer (`_flattenTree.bufferedWrite`, `writeWithAttributeEscaping`) -/
+
+/-- **buffering_invisible**: the chunk-level model — every `write` call of `_flattenElement` kept apart, each chunk
+    escaped on its own by the attribute wrappers around it, `bufferedWrite` with `BUFFER_SIZE = B`, a flush before
+    every awaited Deferred and at the end, `BytesIO` joining what is delivered — produces exactly the bytes (or the
+    error) of `flattenString`, for EVERY `B` and every tree (strings of any length). -/
+theorem buffering_invisible (B : Nat) (n : Node) : flattenStringIO B n = flattenString n :=
+  flattenStringIO_eq B n
+
+/-- what `flatten(request, root, write)` hands to `write`: non-empty chunks whose join is the document -/
+theorem upstream_chunks (B : Nat) (n : Node) (chunks : List Bytes) (h : upstream B n = .ok chunks) :
+    flattenString n = .ok chunks.flatten ∧ ∀ c ∈ chunks, c ≠ [] := by
+  have hb := buffering_invisible B n
+  unfold upstream at h
+  unfold flattenStringIO at hb
+  split at h
+  · rename_i evs st heq
+    cases h
+    rw [heq] at hb
+    exact ⟨hb.symm, deliver_nonempty B evs []⟩
+  · cases h
+
+/-- **C28 for the document as the code assembles it** (HTML reading, any buffer size, any string sizes) -/
+theorem html_roundtrip_buffered (B : Nat) (foreign : Bool) (n : Node) (out : Bytes) (hw : wf (.html foreign) n = true)
+    (hf : flattenStringIO B n = .ok out) :
+    ∃ evs st', expect (.html foreign) n false [] = .ok (evs, st') ∧ tokenize (.html foreign) out = render evs :=
+  html_roundtrip foreign n out hw (by rw [← buffering_invisible B n]; exact hf)
+
+/-- same for the XML reading (with `xml_roundtrip_partial`'s two side conditions) -/
+theorem xml_roundtrip_buffered_partial (B : Nat) (n : Node) (out : Bytes) (hw : wf .xml n = true)
+    (hf : flattenStringIO B n = .ok out) (hc : ∀ c ∈ out, xmlChar c = true) :
+    ∃ evs st', expect .xml n false [] = .ok (evs, st') ∧ tokenize .xml out = render evs :=
+  xml_roundtrip_partial n out hw (by rw [← buffering_invisible B n]; exact hf) hc
+
+/-- the per-character escapers may be applied slice by slice (this is what makes `writeWithAttributeEscaping`,
+    which sees the value chunk by chunk, correct): escaping the pieces and joining = escaping the whole -/
+theorem per_char_escapers_slice_safe (pieces : List Bytes) :
+    (pieces.map escapeForContent).flatten = escapeForContent pieces.flatten ∧
+    (pieces.map attrEsc).flatten = attrEsc pieces.flatten :=
+  ⟨escapeForContent_slices pieces, attrEsc_slices pieces⟩
+
+/-- `escapedCDATA` may NOT be applied slice by slice (seeded change C28-2 did, in `BUFFER_SIZE` slices): for the data
+    `]]><b>` cut after the first byte, both slices are left unchanged, the section ends at the `]]>` of the data and
+    `<b>` is an element — whereas the data escaped whole is character data (`cdata_roundtrip`). -/
+theorem cdata_slices_counterexample :
+    escapedCDATA [93] = [93] ∧ escapedCDATA [93, 62, 60, 98, 62] = [93, 62, 60, 98, 62] ∧
+    -- `<![CDATA[` `]` `]><b>` `]]>`
+    tokenize (.html true) [60, 33, 91, 67, 68, 65, 84, 65, 91, 93, 93, 62, 60, 98, 62, 93, 93, 62] =
+      [Tok.start [98] [] false, Tok.text [93, 93, 62]] ∧
+    tokenize .xml [60, 33, 91, 67, 68, 65, 84, 65, 91, 93, 93, 62, 60, 98, 62, 93, 93, 62] = [Tok.start [98] [] false, Tok.bad] ∧
+    tokenize (.html true) (cdataOpen ++ escapedCDATA [93, 93, 62, 60, 98, 62] ++ cdataClose) =
+      [Tok.text [93, 93, 62, 60, 98, 62]] := by
+  refine ⟨?_, ?_, ?_, ?_, ?_⟩
+  · simp [escapedCDATA]
+  · simp [escapedCDATA]
+  · decide +kernel
+  · decide +kernel
+  · rw [cdata_roundtrip]; simp [flushText]
+
+/-- `escapedComment` may not be applied slice by slice either: `a-` + `b` gives `a- b`, not `a-b` (the trailing-dash
+    and leading-`>` rules speak about the ends of the whole comment), and `--` + `>` … the `-->` rewrite needs all
+    three bytes in one piece: `a--` + `>b` is `a-- &gt;b`, the whole `a-->b` is `a--&gt;b` -/
+theorem comment_slices_counterexample :
+    escapedComment [97, 45] ++ escapedComment [98] ≠ escapedComment [97, 45, 98] ∧
+    escapedComment [97, 45, 45] ++ escapedComment [62, 98] ≠ escapedComment [97, 45, 45, 62, 98] := by
+  constructor <;> simp [escapedComment, subCommentEnd, leadingGt, trailingDash, gt]
 
 /-! ### counterexamples (the recorded findings) and the repaired defect -/
 
@@ -214,5 +291,22 @@ example : tokenize .xml [60, 33, 91, 67, 68, 65, 84, 65, 91, 93, 93, 93, 93, 62,
 example : flattensTo (.cdata [93, 93, 62, 38])
     [60, 33, 91, 67, 68, 65, 84, 65, 91, 93, 93, 93, 93, 62, 60, 33, 91, 67, 68, 65, 84, 65, 91, 62, 38, 93, 93, 62] = true := by
   simp [flattensTo, flattenString, flatten, escapedCDATA, cdataOpen, cdataClose]
+
+/-- the upstream `write` calls are exactly these chunks -/
+def upstreamIs (B : Nat) (n : Node) (chunks : List Bytes) : Bool :=
+  match upstream B n with
+  | .ok c => c == chunks
+  | .error _ => false
+/-- `<p>` + text `ab<` + `</p>` with `BUFFER_SIZE = 4`: the writes `<`, `p`, `>`, `ab&lt;` fill the buffer (one flush),
+    `</p>` fills it again -/
+example : upstreamIs 4 (.tag [112] [] [] [.text [97, 98, 60]] none)
+    [[60, 112, 62, 97, 98, 38, 108, 116, 59], [60, 47, 112, 62]] = true := by
+  simp [upstreamIs, upstream, flattenEv, flattenEvList, flattenEvAttrs, deliver, flush, w, escN, escData,
+    escapeForContent_eq, e1, lt]
+/-- a Deferred flushes whatever is buffered -/
+example : upstreamIs 100 (.list [.text [97], .deferred (.text [98])]) [[97], [98]] = true := by
+  simp [upstreamIs, upstream, flattenEv, flattenEvList, deliver, flush, w, escN, escData, escapeForContent_eq, e1]
+/-- the chunk-level model on the sample tree, 4-byte buffer: the sample document -/
+example : flattenStringIO 4 sample = flattenString sample := buffering_invisible 4 sample
 
 end TwistedProps.C28
